@@ -58,6 +58,7 @@ func runC12(x *Ctx) {
 	x.C.Rule("C12.R3", "field and index cases fail through the optional idiom; siblings agree; a successful lookup is never dropped", 3)
 	x.C.Rule("C12.R4", "resolveSliceIndices gets the slice of the segment and the length of the collection sliced", 3)
 	x.C.Rule("C12.R5", "Select is resolve(selector, subject, nil)", 1)
+	x.C.Rule("C12.R6", "resolveSliceIndices computes Python's clamped slice on every region of (start, end, length)", 1)
 
 	parse := x.fn("C12.R1", selPkg+"Parse")
 	res := x.fn("C12.R1", selPkg+"resolve")
@@ -231,6 +232,8 @@ func runC12(x *Ctx) {
 
 	// ---------------- R4
 	sliceOperands(x, res, elem, curCell)
+
+	sliceTable(x)
 
 	// ---------------- R5
 	if f := x.fn("C12.R5", "("+selPkg+"Selector).Select"); f != nil {
